@@ -3671,8 +3671,17 @@ sexp sexp_read_raw (sexp ctx, sexp in, sexp *shares) {
           res = sexp_read_error(ctx, "reader label out of order", tmp, in);
         } else {
           if (c2 + 1 >= (int)sexp_vector_length(*shares)) {
-            tmp2 = sexp_make_vector(ctx, sexp_make_fixnum(sexp_vector_length(*shares)*2), SEXP_VOID);
+            /* grow until the label fits, carrying over the highest */
+            /* label seen so far, which lives in the last slot */
+            for (c1 = sexp_vector_length(*shares)*2; c2 + 1 >= c1; c1 *= 2)
+              ;
+            tmp2 = sexp_make_vector(ctx, sexp_make_fixnum(c1), SEXP_VOID);
+            if (sexp_exceptionp(tmp2)) {
+              res = tmp2;
+              break;
+            }
             memcpy(sexp_vector_data(tmp2), sexp_vector_data(*shares), (sexp_vector_length(*shares)-1)*sizeof(sexp));
+            sexp_vector_data(tmp2)[c1-1] = sexp_vector_data(*shares)[sexp_vector_length(*shares)-1];
             *shares = tmp2;
           }
           sexp_vector_data(*shares)[c2] = sexp_make_reader_label(c2);
